@@ -24,6 +24,12 @@ Definition kv_census_rows_wellformed : bool :=
 Definition error_formats_ok : bool :=
   forallb (fun r : N * N * N => let '(_, need, have) := r in need <=? have) K.error_format_calls.
 
+(** The tokenizer's own functions: every indexing site guarded, every [raise] goes through [self.error] (so its
+    type is the tokenizer's error type); the parser raises only [tokenizer.error(...)] or [KeyValError(...)]. *)
+Definition tokenizer_sites_all_guarded : bool := match K.tok_unguarded_sites with [] => true | _ => false end.
+Definition tokenizer_raises_only_through_error : bool := match K.tok_foreign_raises with [] => true | _ => false end.
+Definition kvparse_raises_only_keyvalerror : bool := match K.kv_foreign_raises with [] => true | _ => false end.
+
 (* ---- outcome codes shared with checks/c03.py ---- *)
 Definition kerr_code (e : kerr) : N :=
   match e with
